@@ -52,3 +52,14 @@ add(Contract(V + 'visitPredicateexpression', 'fn', [('self', 'CSelf'), ('ctx', '
              requires=['(wfpe {ctx})', '(>= {avc} 0)'],
              raises={'CompilerError': None},
              ensures=['(= {result} (pebody {ctx} {avc0}))', '(= {avc} (+ {avc0} (pecnt {ctx})))']))
+
+# ---- clauses (C11, C12): the head of every accepted clause is an ordinary goal whose name is a Python identifier (it becomes
+#      part of the name of a function definition); a fact has the body `true`
+add(Contract(V + 'visitClause', 'fn', [('self', 'CSelf'), ('ctx', 'CL')], ret='ClauseAst', modifies=['avc'],
+             requires=['(clwf {ctx})', '(>= {avc} 0)'],
+             raises={'CompilerError': None},
+             ensures=['(= {result.head} (spbody (clhd {ctx}) {avc0}))',
+                      '((_ is BPred) {result.head})',
+                      '(str.in_re (tafname (predta (pid {result.head}))) IDENT)',
+                      '(= {result.body} (clbodyof {ctx} {avc0}))',
+                      '(= {avc} (+ {avc0} (clcnt {ctx})))']))
